@@ -137,8 +137,17 @@ def exec_path(eng, fi, c, instance):
     if eng.path_id == 1:
         prove_lemmas(eng, c, fr)
     outcome = None
+    body = fi.node.body
+    cuts = c.extra.get('cut_points')
+    if cuts:
+        body = cut_segment(eng, fi, c, fr, cuts)
+        if body is None:
+            return
     try:
-        eng.exec_block(fi.node.body, fr)
+        eng.exec_block(body, fr)
+        if cuts and not eng.st.ghost.get('last_segment'):
+            end_segment(eng, c, fr, cuts)
+            return
         outcome = ('return', VNONE)
     except _Return as r:
         outcome = ('return', r.v)
@@ -147,6 +156,77 @@ def exec_path(eng, fi, c, instance):
     except (_Break, _Continue):
         raise Unsupported('break/continue outside loop')
     finish(eng, fi, c, fr, outcome)
+
+
+def cut_indices(eng, fi, cuts):
+    """top-level statement indices AFTER which the body is cut (default: every top-level `if` that makes an impure call)"""
+    from . import heapglue
+    import ast as _ast
+    if cuts.get('after') is not None:
+        return list(cuts['after'])
+    out = []
+    body = fi.node.body
+    for i, s_ in enumerate(body[:-1]):
+        if all(isinstance(x, (_ast.Return, _ast.Pass)) for x in body[i + 1:]):
+            break           # the final notification before `return` is not a cut
+        if isinstance(s_, _ast.If) and heapglue.writes_heap(s_.body) and any(
+                isinstance(n, _ast.Call) and not heapglue._pure_call_static(n) for b in s_.body for n in _ast.walk(b)):
+            out.append(i)
+    return out
+
+
+def cut_invs(fi, cuts, upto_index):
+    """invariants in force at the cut after statement `upto_index`: the common ones plus those declared
+    `inv_until = {name: (expr, "<source text of the top-level if test>")}` whose statement has not been passed yet"""
+    import ast as _ast
+    out = list(cuts.get('inv', []))
+    for name, (expr, test_src) in cuts.get('inv_until', {}).items():
+        pos = None
+        for i, s_ in enumerate(fi.node.body):
+            if isinstance(s_, _ast.If) and _ast.unparse(s_.test) == test_src:
+                pos = i
+                break
+        if pos is None or upto_index < pos:
+            out.append(expr)
+    for name, (expr, test_src) in cuts.get('inv_from', {}).items():
+        for i, s_ in enumerate(fi.node.body):
+            if isinstance(s_, _ast.If) and _ast.unparse(s_.test) == test_src:
+                if upto_index >= i:
+                    out.append(expr)
+                break
+    return out
+
+
+def cut_segment(eng, fi, c, fr, cuts):
+    """CUT POINTS: a long sequential body (stop(): nine guarded cancellations, each an excursion into foreign code) is
+    verified segment by segment.  Between segments the cut invariant (plus the object invariant) is proved and then is
+    all that is known: the mutable heap is havocked, locals other than the parameters are forgotten.  Sound (every
+    segment starts from a weaker state than any real execution reaches) and linear instead of exponential in the
+    number of guarded statements."""
+    from . import heap as H
+    idx = cut_indices(eng, fi, cuts)
+    bounds = [-1] + idx + [len(fi.node.body) - 1]
+    nseg = len(bounds) - 1
+    seg = eng.choose([z3.BoolVal(True)] * nseg) if nseg > 1 else 0
+    eng.st.ghost['segment'] = seg
+    eng.st.ghost['last_segment'] = (seg == nseg - 1)
+    if seg > 0:
+        H.havoc(eng, 'cut point')
+        for o in eng.st.ghost.get('unit_objs', []):
+            H.assume_invariant(eng, o)
+        for e in cut_invs(fi, cuts, bounds[seg]):
+            eng.assume(eng.pure_bool(e, fr))
+    eng.st.ghost['segment_end'] = bounds[seg + 1]
+    return fi.node.body[bounds[seg] + 1: bounds[seg + 1] + 1]
+
+
+def end_segment(eng, c, fr, cuts):
+    from . import heap as H
+    seg = eng.st.ghost.get('segment', 0)
+    for o in eng.st.ghost.get('unit_objs', []):
+        H.assert_invariant(eng, o, 'cut#%d' % (seg + 1))
+    for k, e in enumerate(cut_invs(eng.unit_func, cuts, eng.st.ghost.get('segment_end', 0))):
+        eng.prove('cut#%d.inv.%d' % (seg + 1, k + 1), eng.pure_bool(e, fr), kind='inv.keep', assume_after=False)
 
 
 def finish(eng, fi, c, fr, outcome):
